@@ -137,3 +137,17 @@ fn f11_c10_rotating_the_empty_word() {
     assert_eq!(FreeWord::empty().rotated(1), FreeWord::empty());
     assert_eq!(FreeWord::from([1, -1]).rotated(-3), FreeWord::empty());
 }
+
+// f12 (C17): needs `use rust_dsymbols::covers::covers; use rust_dsymbols::euclidicity::{is_euclidean, Euclidean};` - run with --release (about 1 s)
+#[test]
+fn f12_c17_covers_of_a_euclidean_symbol_are_not_rejected_by_the_invariant_table() {
+    use rust_dsymbols::covers::covers;
+    use rust_dsymbols::euclidicity::{is_euclidean, Euclidean};
+    let ds: PartialDSym = "<167.3:3 3:1 2 3,1 3,2 3,1 2 3:3 4,3,4 6>".parse().unwrap();
+    assert!(matches!(is_euclidean(&ds), Euclidean::Yes));
+    for (k, cov) in covers(&ds, 4).iter().enumerate() {
+        if let Euclidean::No(msg) = is_euclidean(cov) {
+            assert!(!msg.contains("invariants"), "cover #{} {} rejected: {}", k, cov, msg);   // cover #31 on the pinned tree
+        }
+    }
+}
